@@ -257,6 +257,20 @@ def run_case(case, ctx):
         if kind == "indices":
             ctx.call("boolean_variable_indices", lambda: arr.boolean_variable_indices)
             ctx.call("integer_variable_indices", lambda: arr.integer_variable_indices)
+            # hostile twin: same ids in the same order, bounds with the same lower+upper sum (equal under the library's hash)
+            tw = []
+            for v in vs:
+                lo, hi = v.bounds.as_tuple()
+                if (lo, hi) == (0, 1):
+                    tw.append(puan.variable(v.id, bounds=rng.choice([(-2, 3), (-3, 4), (0, 1)])))
+                elif lo + hi == 1:
+                    tw.append(puan.variable(v.id, bounds=(0, 1)))
+                else:
+                    tw.append(puan.variable(v.id, bounds=(lo - 1, hi + 1) if rng.random() < 0.5 else (lo, hi)))
+            arr2 = arr_cls(numpy.zeros((1, len(tw)), dtype=numpy.int64), variables=tw)
+            ctx.count("count:index-twins")
+            ctx.call("boolean_variable_indices", lambda: arr2.boolean_variable_indices)
+            ctx.call("integer_variable_indices", lambda: arr2.integer_variable_indices)
             return
         named = rng.sample(ids, rng.randint(0, len(ids)))
         vv = {i: rng.randint(-9, 9) for i in named}
